@@ -15,6 +15,7 @@ byte strings as plain hex (`-` = empty), "no value" as `~`.
 * `unrep <joined outcome> <per-character outcomes> <characters joined by ,>` → `ok <characters> | crash`; outcome letters `o e i c`
 * `check <name> <is_template> <dec> <codec | ~> <characters | ~ (no language) | ^ (no list)> <oracle>` →
   tags and the encoding kept; `<oracle>` = `;`-separated `<enc name>=<joined outcome>:<per-character outcomes>` (or `~`)
+* `loader <len> <raw decode outcome>` → `ok <text> | ude <start> <stop> | crash`
 * `euctw-dec <bytes> <cns oracle>` → `ok <text> | err <offset> <eilseq|einval>`; `euctw-enc <text> <inverse oracle>` → `ok <bytes> | err <index>`
 -/
 namespace I18n.Driver.Charset
@@ -150,6 +151,19 @@ def handle (op : String) (args : List String) : String :=
     | .ok (tags, enc) =>
       let ts := if tags.isEmpty then "-" else ";".intercalate (tags.map showTag)
       s!"ok {ts} enc={match enc with | none => "~" | some e => showName e}"
+  | "loader", [len, raw] =>
+    -- `<raw>` = `T<text>` | `D<start>.<stop>` (hex) | `U` (bare UnicodeError) | `O`
+    let r : RawDecode := match raw.toList with
+      | 'T' :: rest => .text (nameOf (String.ofList rest))
+      | 'D' :: rest => match nameOf (String.ofList rest) with
+        | [a, b] => .ude a b
+        | _ => .other
+      | ['U'] => .unicodeError
+      | _ => .other
+    match loaderDecode len.toNat! r with
+    | .text cs => s!"ok {showName cs}"
+    | .ude a b => s!"ude {a} {b}"
+    | .crash => "crash"
   | "euctw-dec", [b, orc] =>
     -- oracle: `;`-separated `<plane>.<row>.<col>=<code point>` (hex), the table entries the input could touch
     let entries : List ((Nat × Nat × Nat) × Nat) := if orc == "~" then [] else (orc.splitOn ";").filterMap fun item =>
